@@ -187,6 +187,43 @@ def _slice_of(t):
         return t
 
 
+def _indexed_base(b, tm, site):
+    """The array/slice expression that the bounds assert of `site` protects: the place indexed by the asserted index local
+    in the assert's target block."""
+    t = b.term(site.block)
+    m = t.get("msg") or {}
+    io = m.get("index")
+    if not io or io.get("k") not in ("copy", "move") or io["place"].get("p"):
+        return None
+    il = io["place"]["l"]
+    tgt = t.get("target")
+    if tgt is None:
+        return None
+
+    def scan(place):
+        proj = place.get("p") or []
+        for n, e in enumerate(proj):
+            if e["k"] == "index" and e["l"] == il:
+                return tm.place({"l": place["l"], "p": proj[:n]})
+        return None
+    blk = b.blocks[tgt]
+    for st in blk["stmts"]:
+        if st["k"] != "assign":
+            continue
+        for pl in [st["place"]] + [o["place"] for o in lib.operands_of_rv(st["rv"]) if o.get("k") in ("copy", "move")] + (
+                [st["rv"]["place"]] if st["rv"].get("place") else []):
+            r = scan(pl)
+            if r is not None:
+                return r
+    tt = blk["term"]
+    for o in tt.get("args", []) or []:
+        if o.get("k") in ("copy", "move"):
+            r = scan(o["place"])
+            if r is not None:
+                return r
+    return None
+
+
 def same_len(ln, t):
     """Is term t the length that the bounds check compares against (ln)? Syntactic: same term, slice::len / PtrMetadata of the
     same slice expression, or the length argument of the from_raw_parts call that created the slice."""
@@ -318,6 +355,16 @@ def auto_discharge(prog, cg, site):
                         hi = T.const_val(T.strip_casts(z[2][1]))
                         if hi is not None and hi <= vl and T.canon(ix) == T.canon(("f", ("as", y, "Some"), 0, None)):
                             return "D3: index iterates a range ending at %d <= len %d" % (hi, vl)
+        # array indexed by a variable that iterates lo..array.len() (the assert compares with the constant array length)
+        if vl is not None:
+            base = _indexed_base(b, tm, site)
+            for y in T.walk(ix):
+                if y[0] == "call" and y[1].endswith("::next") and T.canon(ix) == T.canon(("f", ("as", y, "Some"), 0, None)) and base is not None:
+                    for z in T.walk(y[2][0]):
+                        if z[0] == "agg" and z[1].startswith("adt:core::ops::range::Range::Range") and len(z[2]) == 2:
+                            hi = T.strip_casts(z[2][1])
+                            if hi[0] == "call" and hi[1] == "slice::len" and T.canon(_slice_of(hi[2][0])) == T.canon(_slice_of(base)):
+                                return "D3: index iterates lo..len() of the indexed array itself"
         # index produced by iterating lo..len of the same slice
         for y in T.walk(ix):
             if y[0] == "call" and y[1].endswith("::next"):
